@@ -19,6 +19,8 @@
                              the content), each as its own theorem, bundled
    * `objstm_never_panics`   no panic site is reachable (loop fuel, `set_cursor` address arithmetic with
                              offsets up to 2^63-1, the object parser's sites), for all /N, /First, offsets
+   * `ObjStm.readAt_eq_parseObj`  "the object located at offset o" (optional white space, then the object
+                             parser) is exactly what parse_pdf_obj reads when started at o
    * `defect17_witness`      the loop as it was before the fix binds id 12 to `22` on the DESIGN input
 -/
 import Parsley.Lemmas.ObjStmMeta
